@@ -428,6 +428,16 @@ func localTableField(v ssa.Value) (*ssa.Alloc, int, bool) {
 			}
 		}
 	}
+	// ranging over an array literal by value: go/ssa copies the array and reads elements with Index
+	if ix, ok := elem.(*ssa.Index); ok {
+		if ld, ok := ix.X.(*ssa.UnOp); ok && ld.Op == token.MUL {
+			if al, ok := ld.X.(*ssa.Alloc); ok {
+				if _, isArr := al.Type().Underlying().(*types.Pointer).Elem().Underlying().(*types.Array); isArr {
+					return al, field, true
+				}
+			}
+		}
+	}
 	if u, ok := elem.(*ssa.UnOp); ok {
 		elem = u.X
 	}
